@@ -314,8 +314,13 @@ def quiescence_check(ck, sim, a, b, both_known_children_only=True, prefix='quies
                                                      'B': sorted(x[0].hex() + '/' + x[1].hex() for x in eb), 'other': other,
                                                      'trace': sim.trace[-16:]}, case)
         return False
-    if other:
-        ck.violation(f'{prefix}:non-established-left:{sorted(set(o[1] for o in other))}', {'other': other, 'trace': sim.trace[-16:]}, case)
+    # The property only demands: nobody waits for a response, same established IKE_SAs, same CHILD_SAs.
+    # Half-open responder objects (INIT_RES_SENT, created by every copy of an IKE_SA_INIT request) are counted, not flagged.
+    leftovers = [o for o in other if o[1] not in ('INIT_RES_SENT', 'REKEYED')]
+    for o in other:
+        ck.count(f'col.leftover.{o[1]}')
+    if leftovers:
+        ck.violation(f'{prefix}:non-established-left:{sorted(set(o[1] for o in leftovers))}', {'other': other, 'trace': sim.trace[-16:]}, case)
         return False
 
     def childs(ep, flip):
